@@ -65,7 +65,7 @@ Fixpoint dfs (c : nat) (n : nat) (fuel : nat) (f : fifo) (rem : list hrec) : ans
 Definition lin_check (fuel : nat) (c : nat) (f0 : fifo) (h : list hrec) : answer :=
   fst (dfs c (length h) fuel f0 h).
 
-Definition default_fuel : nat := 240 * 250.
+Definition default_fuel : nat := 100 * 200.
 
 (** ------------------------------------------------------------------ cases *)
 Definition H (o : op) (k : Z) (got : list cell) (inv ret : N) : hrec :=
